@@ -4,7 +4,7 @@ from __future__ import annotations
 import ast
 import itertools
 
-from ..exprs import affine, Affine, identically, to_sympy
+from ..exprs import affine, Affine, identically, to_sympy, torch_funcs
 from ..loader import AnalysisError, call_name, callee_attr, calls_in, names_in, norm, short
 from ..symexec import SymExec
 
@@ -128,6 +128,8 @@ def run(ctx):
     ctx.rule("R6", "every element of the analytical local-frame derivative kernel is d/dr of the corresponding energy integral (27 identities)")
     ctx.rule("R7", "back-propagated forces see the response of the density: unrolled SCF drivers write no solver state under no_grad (shared with C07-R5)")
     ctx.rule("R8", "every molecule's gradient is built from its own state and sizes (representative-row rule, shared with C05-R1)")
+    ctx.rule("R9", "analytical dispersion gradient is the derivative of the dispersion pair energy (AM1-FS1, expression algebra)")
+    _r9_dispersion(ctx, repo)
     from .c07 import check_unrolled_graph
     check_unrolled_graph(ctx, repo.mod("seqm/seqm_functions/scf_loop.py"), "R7")
     from .c05 import check_rep_rows
@@ -384,3 +386,70 @@ def _r6_derivative_kernel(ctx, repo):
         ctx.check(_num_zero(diff, 499), "R6", ag, d, "der_TETCILF", "riHH_x", "riHH_x / term = (d riHH/dr)/ev", "H-H derivative element is not the derivative of the H-H integral")
     if n < 27:
         raise AnalysisError(f"only {n} derivative elements compared")
+
+
+def _r9_dispersion(ctx, repo):
+    """E_pair = -C6 (a0 r)^-6 f(r) K with f the logistic damping; dEdisp_dr must return (dE_pair/dR) with R = a0 r in Angstrom, times the
+    unit vector with the sign of x_j - x_i.  Both routines are read as sympy expressions of the same symbols (the clipping of f in its
+    saturated tails has zero derivative and is skipped)."""
+    import sympy as sp
+    rel = "seqm/seqm_functions/dispersion_am1_fs1.py"
+    if not repo.has(rel):
+        return
+    m = repo.mod(rel)
+    r, C6, Rv, d, SR, a0s, K = sp.symbols("r C6 Rvdw d S_R a0 K", positive=True)
+    env = {"mol.rij": r, "C6ij": C6, "R_vdw": Rv, "d": d, "S_R": SR, "a0": a0s, "EV_PER_ATOM_PER_J_PER_MOL": K}
+    funcs = torch_funcs()
+    funcs["torch.sigmoid"] = lambda a, n: 1 / (1 + sp.exp(-a[0]))
+    funcs["torch.pow"] = lambda a, n: a[0] ** a[1]
+    funcs[".unsqueeze"] = lambda a, n: a[0]
+    damp = m.func("dispersion_damping")
+    e_d = dict(env)
+    for st in damp.body:
+        if isinstance(st, ast.Assign) and len(st.targets) == 1 and isinstance(st.targets[0], ast.Name):
+            if isinstance(st.value, ast.Call) and (call_name(st.value) or "") == "torch.where":
+                continue                      # clipping in the saturated tails
+            try:
+                e_d[st.targets[0].id] = to_sympy(st.value, e_d, funcs)
+            except AnalysisError:
+                pass
+    if "f_damp" not in e_d or "alpha" not in e_d:
+        raise AnalysisError("dispersion_damping: f_damp / alpha not interpretable")
+    want_f = 1 / (1 + sp.exp(-d * (a0s * r / (SR * Rv) - 1)))
+    ctx.check(sp.simplify(e_d["f_damp"] - want_f) == 0, "R9", m, damp, "dispersion_damping", "f_damp", "f = logistic(d (R/(S_R R_vdw) - 1))", f"f_damp = {e_d['f_damp']}")
+    en = m.func("dispersion_am1_fs1")
+    e_e = dict(env, f_damp=e_d["f_damp"])
+    Epair = None
+    for st in en.body:
+        if isinstance(st, ast.Assign) and len(st.targets) == 1 and norm(st.targets[0]) == "E_disp_pair":
+            Epair = to_sympy(st.value, e_e, funcs)
+    scale = [st for st in en.body if isinstance(st, ast.Assign) and norm(st.targets[0]) == "E_disp" and isinstance(st.value, ast.BinOp) and "E_disp" in norm(st.value.left)]
+    if Epair is None or not scale:
+        raise AnalysisError("dispersion_am1_fs1: pair energy / unit conversion not found")
+    conv = to_sympy(scale[0].value, dict(env, E_disp=sp.Integer(1)), funcs)
+    Epair = Epair * conv
+    gr = m.func("dEdisp_dr")
+    e_g = dict(env, f_damp=e_d["f_damp"], alpha=e_d["alpha"])
+    ret = None
+    for st in gr.body:
+        if isinstance(st, ast.Assign) and len(st.targets) == 1 and isinstance(st.targets[0], ast.Name):
+            if isinstance(st.value, ast.Call) and (call_name(st.value) or "") == "dispersion_damping":
+                continue
+            try:
+                e_g[st.targets[0].id] = to_sympy(st.value, e_g, funcs)
+            except AnalysisError:
+                pass
+        elif isinstance(st, ast.Tuple):
+            pass
+        elif isinstance(st, ast.Return):
+            ret = st
+    if "dE_pair" not in e_g or ret is None:
+        raise AnalysisError("dEdisp_dr: dE_pair not interpretable")
+    R = sp.Symbol("R", positive=True)
+    dE_dR = sp.diff(Epair.subs(r, R / a0s), R).subs(R, a0s * r)
+    resid = sp.simplify(e_g["dE_pair"] - dE_dR)
+    ctx.check(resid == 0, "R9", m, gr, "dEdisp_dr", "dE_pair", "dE_pair = d(E_pair)/dR with R = a0 r (eV/Angstrom), including the derivative of the damping function",
+              f"dE_pair differs from the derivative of the dispersion pair energy by {resid}: with `dispersion` on, analytical forces are not -dE/dx")
+    rt = norm(ret.value).replace(" ", "")
+    ctx.check(rt == "-dE_pair.unsqueeze(1)*mol.xij", "R9", m, ret, "dEdisp_dr", "return", "pair gradient = -dE/dR * (x_j - x_i)/|x_j - x_i| (gradient with respect to atom i)",
+              f"returned `{rt}`")
